@@ -3,9 +3,8 @@
    (ii) over the shipped lists (finite): the lower- and upper-cased spelling of every listed license id, and of
    every exception id after WITH, parses to the node of the list-cased spelling;
    (iii) every id inside a node the parser returns is a member of the lists (so ExtractLicenses prints list casing).
-   C09_partial: the lift to an arbitrary case-mutated id at an arbitrary position of an arbitrary expression string
-   is the compositionality of tokenisation; until then it is carried by the correspondence check. *)
-From Spdx Require Import Props.Shipped Spec.Spellings WF.Spellings Proofs.Congruence Proofs.NodeInv.
+   (iv) C09: the same in every context, by compositionality of tokenisation (Proofs/Split.v, Proofs/CaseFold.v). *)
+From Spdx Require Import Props.Shipped Spec.Spellings Spec.Units WF.Spellings WF.Units Proofs.Congruence Proofs.NodeInv Proofs.Split Proofs.SameParse Proofs.CaseFold Proofs.Laws Proofs.ApiFacts.
 Local Open Scope list_scope.
 
 Theorem C09_lookups_ignore_case T a b : fold_eqb a b = true ->
@@ -21,11 +20,31 @@ Proof. exact chk_case_ids_shipped. Qed.
 Theorem C09_output_is_list_cased s t : parse T0 s = Ok t -> tree_ok T0 t.
 Proof. exact (parse_tree_ok T0 HT0 s t). Qed.
 
+(* C09 in every context.  b is any re-casing of a listed id X (license or exception); sfx is nothing, or an exact
+   "-only" / "-or-later"; p and q are arbitrary surrounding text with the id word delimited (q empty or starting
+   with a non-id byte - a '+' included; p empty or ending in a non-id byte).  Then the two texts have the same
+   parse outcome: the same tree, with list casing, or both invalid ... *)
+Theorem C09 b X sfx p q : In X (all_ids T0) -> fold_eqb b X = true -> word_ok X -> sfx_ok sfx ->
+  after_ok q -> (p = [] \/ exists p' c1, p = p' ++ [c1] /\ boundary p' c1) ->
+  same_parse T0 (p ++ (b ++ sfx) ++ q) (p ++ (X ++ sfx) ++ q).
+Proof. exact (case_variant_anywhere T0 HT0 chk_no_keyword_prefix_shipped chk_case_safe_shipped b X sfx p q). Qed.
+
+(* ... and texts with the same parse outcome are interchangeable as expression, as allowed entry, in ExtractLicenses *)
+Theorem C09_interchangeable s s' : same_parse T0 s s' ->
+  validb T0 s = validb T0 s' /\
+  (forall A, obs (satisfies T0 s A) = obs (satisfies T0 s' A)) /\
+  (forall e A1 A2, obs (satisfies T0 e (A1 ++ s :: A2)) = obs (satisfies T0 e (A1 ++ s' :: A2))) /\
+  obs (extract_licenses T0 s) = obs (extract_licenses T0 s').
+Proof.
+  intros H. split; [apply (same_parse_valid T0 HT0); assumption|]. split; [intros A; apply (same_parse_expression T0 HT0); assumption|].
+  split; [intros e A1 A2; apply (same_parse_allowed T0 HT0 Hnr0); assumption|apply (same_parse_extract T0 HT0); assumption].
+Qed.
+
 Example C09_example :
   parse T0 (s2l "(gpl-2.0+ with CLASSPATH-EXCEPTION-2.0)") = Err (EUnknownLicense (s2l "with") 10)
   /\ parse T0 (s2l "(gpl-2.0+ WITH CLASSPATH-EXCEPTION-2.0) OR mIt")
      = Ok (NOr (NLic (s2l "GPL-2.0-or-later") true (Some (s2l "Classpath-exception-2.0"))) (NLic (s2l "MIT") false None)).
 Proof. vm_compute. split; reflexivity. Qed.
 
-Definition C09_theorems := (@C09_lookups_ignore_case, @C09_lookup_returns_list_spelling, @C09_shipped_ids, @C09_output_is_list_cased).
+Definition C09_theorems := (@C09_lookups_ignore_case, @C09_lookup_returns_list_spelling, @C09_shipped_ids, @C09_output_is_list_cased, @C09, @C09_interchangeable).
 Redirect "assumptions/C09" Print Assumptions C09_theorems.
